@@ -152,6 +152,7 @@ func (c *Ctx) assignTo(lhs ast.Expr, v Val, st *State, define bool) {
 			c.noteElemStore(st, types.ExprString(l.X), k, c.pos(l.Pos()), "map key")
 			c.noteElemStore(st, types.ExprString(l.X), v, c.pos(l.Pos()), "map value")
 			nm := c.mapStore(st, b, k, v)
+			c.mapEvents = append(c.mapEvents, mapEvent{Old: b, New: nm, K: k, V: v, Guard: st.guard, Pos: l.Pos()})
 			c.assignTo(l.X, nm, st, false)
 		default:
 			c.fail(l.Pos(), "index assignment on %T", bv)
@@ -905,6 +906,15 @@ func (c *Ctx) havoc(st *State, m modSet) *State {
 // assignedWhole: the variable itself (not only its elements) is assigned in the loop
 func (c *Ctx) assignedWhole(m modSet, o types.Object) bool { return m.wholes != nil && m.wholes[o] }
 
+// mapEvent: ghost record of one map assignment m[k] = v (family engines state "the final map is the initial one
+// with exactly this entry stored" over these records)
+type mapEvent struct {
+	Old, New MapV
+	K, V     Val
+	Guard    string
+	Pos      token.Pos
+}
+
 type LoopSpec struct {
 	Unroll    int
 	Invs      []*Clause
@@ -920,6 +930,8 @@ type LoopSpec struct {
 	PostFn func(c *Ctx, before, after *State) string
 	// BodyObl: extra per-iteration obligations (state at the start of the body, state at the back edge, range index)
 	BodyObl func(c *Ctx, before, after *State, idx string)
+	// EntryObl: extra obligations on the state in which the loop is entered (before any havoc)
+	EntryObl func(c *Ctx, pre *State)
 }
 
 func (c *Ctx) loopSpec(ord int, loop ast.Stmt) *LoopSpec {
@@ -986,6 +998,9 @@ func (c *Ctx) execFor(x *ast.ForStmt, st *State) Flow {
 		return Flow{next: h}
 	}
 	// invariant cut
+	if ls.EntryObl != nil {
+		ls.EntryObl(c, st)
+	}
 	c.addObl(Obl{Name: key + "/loop.entry", Kind: "loop.entry", Guard: st.guard, Goal: c.evalInv(ls, st, "", x.Pos()), Pos: c.pos(x.Pos()), Text: "loop invariant holds on entry"})
 	m := c.modsOf(x.Body, x.Post)
 	c.addNamedMods(&m, ls.Mods, st)
